@@ -79,3 +79,85 @@ Proof.
   destruct (writer_partition_known a Htot Hchunk parts (bcj_init a start) Hb Hn) as (f1 & f2 & o & r & Ew & Ec).
   exists (o ++ r). unfold bcj_stream, bcj_enc_parts. rewrite Ec, Ew. split; reflexivity.
 Qed.
+
+(* ------------------------------------------------------------------------------------------ *)
+(* From the inverse at the level of `code` to the round trip BCJWriter (one write) -> BCJReader
+   (any chunking of the filtered stream, any history of reads). *)
+Definition code_inverse (a : arch) : Prop :=
+  forall start buf, start mod bcj_align a = 0 -> bytes_ok buf = true ->
+  exists st' out rest,
+    bcj_code a true (bcj_init a start) buf = Ok (st', out, rest) /\
+    bcj_code a false (bcj_init a start) (out ++ rest) = Ok (st', firstn (length out) buf, rest) /\
+    firstn (length out) buf ++ rest = buf /\ bytes_ok out = true.
+
+Lemma stream_inverse a : code_inverse a ->
+  forall start data, start mod bcj_align a = 0 -> bytes_ok data = true ->
+  exists enc, bcj_stream a true start data = Ok enc /\ bcj_stream a false start enc = Ok data /\
+              bytes_ok enc = true /\ length enc = length data.
+Proof.
+  intros Hinv start data Hal Hb.
+  destruct (Hinv start data Hal Hb) as (st' & out & rest & E1 & E2 & E3 & Hbo).
+  exists (out ++ rest). unfold bcj_stream. rewrite E1, E2. cbn [obind]. split; [reflexivity|]. split; [rewrite E3; reflexivity|].
+  assert (Hbr : bytes_ok rest = true).
+  { rewrite <- E3 in Hb. apply bytes_ok_app in Hb. tauto. }
+  split; [apply bytes_ok_app; auto|].
+  assert (Hlo : (length out <= length data)%nat).
+  { destruct (code_facts_all a true) as (Htot & _).
+    destruct (Htot (bcj_init a start) data Hb) as (s & o & r & E & _ & Hl & _).
+    rewrite E1 in E. injection E as <- <- <-. lia. }
+  transitivity (length (firstn (length out) data ++ rest)); [|rewrite E3; reflexivity].
+  rewrite !app_length, firstn_length. lia.
+Qed.
+
+Theorem bcj_roundtrip a : code_inverse a ->
+  forall start data, start mod bcj_align a = 0 -> bytes_ok data = true ->
+  exists enc,
+    bcj_enc_parts a start [data] = Ok enc /\ length enc = length data /\
+    forall parts sizes, concat parts = enc -> Forall (fun n => 0 <= n) sizes ->
+      Z.of_nat (length data) <= fold_right Z.add 0 sizes ->
+      exists rs' inner',
+        bcj_read_calls (bcj_read_fuel (data_script parts)) a (bcj_reader_new a start) (data_script parts) sizes =
+          Ok (data, [], rs', inner').
+Proof.
+  intros Hinv start data Hal Hb.
+  destruct (stream_inverse a Hinv start data Hal Hb) as (enc & Ee & Ed & Hbe & Hl).
+  exists enc. split.
+  { unfold bcj_enc_parts, bcj_stream in *. cbn [bcj_write_calls]. unfold bcj_write.
+    destruct (bcj_code a true (bcj_init a start) data) as [[[f' o] r]| | |]; cbn [obind] in *; try discriminate.
+    rewrite app_nil_r. exact Ee. }
+  split; [exact Hl|].
+  intros parts sizes Hc Hs Hsum.
+  destruct (bcj_reader_any_sizes a start parts sizes ltac:(rewrite Hc; exact Hbe) Hs) as (F & rs' & inner' & EF & Er).
+  rewrite Hc, Ed in EF. injection EF as <-.
+  exists rs', inner'. rewrite Er. rewrite firstn_all2 by lia. reflexivity.
+Qed.
+
+Lemma code_inverse_arm : code_inverse ARM.
+Proof. intros start buf. apply bcj_inverse_arm. Qed.
+Lemma code_inverse_armthumb : code_inverse ARMT.
+Proof. intros start buf. apply bcj_inverse_armthumb. Qed.
+Lemma code_inverse_arm64 : code_inverse ARM64.
+Proof. intros start buf. apply bcj_inverse_arm64. Qed.
+Lemma code_inverse_ppc : code_inverse PPC.
+Proof. intros start buf. apply bcj_inverse_ppc. Qed.
+Lemma code_inverse_sparc : code_inverse SPARC.
+Proof. intros start buf. apply bcj_inverse_sparc. Qed.
+
+Theorem bcj_roundtrip_word : forall a, In a [ARM; ARMT; ARM64; PPC; SPARC] ->
+  forall start data, start mod bcj_align a = 0 -> bytes_ok data = true ->
+  exists enc,
+    bcj_enc_parts a start [data] = Ok enc /\ length enc = length data /\
+    forall parts sizes, concat parts = enc -> Forall (fun n => 0 <= n) sizes ->
+      Z.of_nat (length data) <= fold_right Z.add 0 sizes ->
+      exists rs' inner',
+        bcj_read_calls (bcj_read_fuel (data_script parts)) a (bcj_reader_new a start) (data_script parts) sizes =
+          Ok (data, [], rs', inner').
+Proof.
+  intros a Ha. apply bcj_roundtrip.
+  destruct Ha as [<-|[<-|[<-|[<-|[<-|[]]]]]].
+  - exact code_inverse_arm.
+  - exact code_inverse_armthumb.
+  - exact code_inverse_arm64.
+  - exact code_inverse_ppc.
+  - exact code_inverse_sparc.
+Qed.
